@@ -511,6 +511,10 @@ def main(argv=None):
     if len(argv) < 1:
         print("usage: check <ID> [quick|thorough] [--replay file]")
         return 2
+    if not os.path.isfile(os.path.join(REPO, "pabutools", "__init__.py")):
+        # never fall back silently on another copy of the library (an installed one would be imported instead)
+        print("error: no pabutools package under %s (VERIF_REPO); nothing was checked" % REPO)
+        return 2
     prop_id = argv[0].upper()
     tier = "quick"
     replay = None
